@@ -409,6 +409,37 @@ def spec_from_config(cfg):
                 palette=cfg.get('palette', 0), nl=nl, ln=ln, jac=jac, units=units, first=first,
                 p_shape=w['p_shape'], sparse=cfg.get('sparse', False), dvs=[dv], responses=resp,
                 scaling=cfg.get('solver_scaling'), self_solve=cfg.get('self_solve', True))
+    rck = cfg.get('rhsck')
+    if rck:
+        # linear-solver right-hand-side caching: the owning solver must support it, and some of the
+        # right-hand sides it sees must be parallel / anti-parallel with different magnitudes
+        if ln not in ('Direct', 'Krylov'):
+            return None, 'rhs_checking only exists on DirectSolver/ScipyKrylov'
+        opts = True if rck == 'on' else {'check_zero': True, 'max_cache_entries': 2}
+        spec['groups'].setdefault(spec['solver_group'], {}).setdefault('ln_opts', {})[
+            'rhs_checking'] = opts
+        spec['groups'][spec['solver_group']]['ln'] = ln
+        for comp in spec['comps']:
+            if comp['name'] == 'c1':
+                for key in ('A', 'Q'):
+                    if 'y|x0' in comp[key]:
+                        A = np.array(comp[key]['y|x0'])
+                        mask = np.zeros(A.shape, dtype=bool)
+                        A = np.where(A == 0, 0.25, A)
+                        for j in range(A.shape[1]):
+                            mask[j % min(2, A.shape[0]), j] = True
+                            A[:, j] = np.abs(A[:, j]) * (-1.0 if (j // 2) % 2 else 1.0)
+                        comp[key]['y|x0'] = A * mask
+            if comp['name'] == 'c3':
+                for key in ('A', 'Q'):
+                    if 'y|x0' in comp[key]:
+                        A = np.array(comp[key]['y|x0'])
+                        mask = np.zeros(A.shape, dtype=bool)
+                        A = np.where(A == 0, 0.25, A)
+                        for i in range(A.shape[0]):
+                            mask[i, i % min(2, A.shape[1])] = True
+                            A[i, :] = np.abs(A[i, :]) * (-1.0 if (i // 2) % 2 else 1.0)
+                        comp[key]['y|x0'] = A * mask
     if partials in ('cs',):
         spec['force_alloc_complex'] = True
     if partials == 'matfree' and ln == 'Direct':
